@@ -184,7 +184,39 @@ def r_perm(p, seed=0):
     return (0.0 if (np.asarray(a) == np.asarray(b)).all() else 1.0), "compute_permutation C vs Python fallback"
 
 
-REFSEM = {"dynmat": r_dynmat, "d2f": r_d2f, "ddm": r_ddm, "thermal": r_thermal, "thm": r_thm, "thmesh": r_thmesh, "perm": r_perm}
+def r_thmfam(p, seed=0):
+    """relative grid addresses of the 24 tetrahedra: C vs Python over a family of lattices (diag x off-diagonals) x meshes"""
+    import itertools
+
+    from phonopy.structure.tetrahedron_method import TetrahedronMethod
+
+    def canon(t):
+        return sorted(sorted(map(tuple, np.asarray(tt).tolist())) for tt in t)
+
+    bad = 0
+    a = p["a"]
+    for b, c_ in itertools.product((1.0, 1.3, 2.1), repeat=2):
+        for d, e, f in itertools.product((-0.6, 0.0, 0.45), repeat=3):
+            rec = np.linalg.inv(np.array([[a, 0, 0], [d, b, 0], [e, f, c_]]))
+            for mesh in ([1, 1, 1], [3, 2, 2], [1, 4, 9]):
+                if canon(TetrahedronMethod(rec, mesh=mesh, lang="C").tetrahedra) != canon(TetrahedronMethod(rec, mesh=mesh, lang="Py").tetrahedra):
+                    bad += 1
+    return float(bad), "tetrahedra relative grid addresses lang=C vs lang=Py over 243 lattices x 3 meshes (number of differing tables)"
+
+
+def r_svecs(p, seed=0):
+    """shortest vectors: dense kernel, sparse kernel and a brute-force minimum-image search (documented definition)"""
+    from checks import c05
+
+    worst = 0.0
+    for storage in ("dense", "sparse"):
+        r = c05.run_lattice({"lat": p["lat"], "storage": storage}, seed)
+        if not r.get("ok"):
+            worst = 1.0
+    return worst, "get_smallest_vectors (dense and sparse kernels) vs brute-force minimum images: %s" % p["lat"]
+
+
+REFSEM = {"thmfam": r_thmfam, "svecs": r_svecs, "dynmat": r_dynmat, "d2f": r_d2f, "ddm": r_ddm, "thermal": r_thermal, "thm": r_thm, "thmesh": r_thmesh, "perm": r_perm}
 
 
 def matrix(tier):
@@ -210,4 +242,11 @@ def matrix(tier):
     out.append(("thmesh", {"xtal": "tri-P1-3", "S": S1, "mesh": [2, 3, 4], "meshsym": False}))
     for xt, S in (("hcp-2", S1), ("NaCl-prim-2", S2), ("tri-P1-3", S1), ("rutile-6", [[1, 0, 0], [0, 1, 0], [0, 0, 1]])):
         out.append(("perm", {"xtal": xt, "S": S}))
+    for a in (1.0, 1.3, 2.1):
+        out.append(("thmfam", {"a": a}))
+    from checks import c05
+
+    lats = list(c05.lattices("quick"))
+    for lat in lats[:: max(1, len(lats) // (40 if tier == "quick" else 400))]:
+        out.append(("svecs", {"lat": lat}))
     return out
